@@ -2,6 +2,7 @@ package main
 
 import (
 	"fmt"
+	"go/token"
 	"go/types"
 	"strings"
 
@@ -127,6 +128,7 @@ func init() {
 		if nu < 6 {
 			c.und("upper-bound", "NewIterator implementations", "", fmt.Sprintf("only %d found", nu))
 		}
+		c15UpperBoundTruncated(c)
 		// interface-complete
 		get := func(n string) *types.Interface {
 			t := p.lookupType("db", n)
@@ -295,5 +297,76 @@ func c15Iterators(c *Ctx) {
 	}
 	if n < 6 {
 		c.und("unpositioned-first", "db iterators", "", fmt.Sprintf("only %d anchors found", n))
+	}
+}
+
+// c15UpperBoundTruncated: the exclusive upper bound of a prefix scan is the prefix cut after its last byte that is not 0xff,
+// with that byte incremented — the returned slice ENDS at the incremented byte. A bound that keeps the bytes after it
+// ("add one with carry": [1,255] → [2,0]) is larger than the shortest successor [2], so a scan bounded by it also returns
+// the key [2] itself, which does not have the prefix. Pebble-backed scans use the bound with no further filtering, the
+// in-memory backend re-checks the prefix and hides the difference (seeded changes C15-E and C15-H, written independently).
+// Decided on the SSA of dbutils.UpperBound: every non-nil result r has exactly the length idx+1, where idx is the index of the
+// element store `r[idx] = r[idx] + 1` (r made/sliced with length idx+1, or idx = len(r)-1).
+func c15UpperBoundTruncated(c *Ctx) {
+	p := c.P
+	f := p.Func("db/dbutils", "", "UpperBound")
+	if f == nil {
+		c.und("upper-bound-truncated", "dbutils.UpperBound", "", "anchor not found")
+		return
+	}
+	n := 0
+	for _, ret := range returnsOf(f) {
+		if len(ret.Results) != 1 || isNilConst(ret.Results[0]) {
+			continue
+		}
+		n++
+		r := ret.Results[0]
+		// the increment store into r
+		var idx ssa.Value
+		allInstrsOne(f, func(in ssa.Instruction) {
+			st, ok := in.(*ssa.Store)
+			if !ok {
+				return
+			}
+			ia, ok := st.Addr.(*ssa.IndexAddr)
+			if !ok || ia.X != r {
+				return
+			}
+			b, ok := st.Val.(*ssa.BinOp)
+			if !ok || b.Op != token.ADD {
+				return
+			}
+			if k, isK := b.Y.(*ssa.Const); !isK || k.Value == nil || k.Int64() != 1 {
+				return
+			}
+			if dominatesInstr(in, ret.Ret) {
+				idx = ia.Index
+			}
+		})
+		construct := fmt.Sprintf("dbutils.UpperBound: result #%d", n)
+		if idx == nil {
+			c.und("upper-bound-truncated", construct, p.Pos(posOf(ret.Ret, f)), "the increment of the bound's last byte was not recognised for the returned slice "+term(r))
+			continue
+		}
+		it := term(idx)
+		ok := false
+		how := ""
+		switch x := r.(type) {
+		case *ssa.MakeSlice:
+			ok = term(x.Len) == "("+it+" + 1)"
+			how = "make([]byte, " + term(x.Len) + ")"
+		case *ssa.Slice:
+			ok = x.High != nil && term(x.High) == "("+it+" + 1)"
+			how = term(r)
+		default:
+			how = term(r)
+		}
+		if !ok && (it == "(len("+term(r)+") - 1)") {
+			ok = true
+		}
+		c.check(ok, "upper-bound-truncated", construct, p.Pos(posOf(ret.Ret, f)), "the bound ends at the incremented byte (length = index + 1)", "the returned bound "+how+" is not cut after the incremented byte (index "+it+"): for a prefix ending in 0xff it keeps trailing bytes, is larger than the shortest successor, and a bounded scan returns a key outside the prefix")
+	}
+	if n == 0 {
+		c.und("upper-bound-truncated", "dbutils.UpperBound", p.Pos(fnPos(f)), "no non-nil result found")
 	}
 }
